@@ -76,7 +76,7 @@ def c08a(ctx, tu):
             x = r.get("x")
             if x is None and void:
                 continue
-            if lib.tree_name(lib.strip_casts(x)) != "trompeloeil::call_matcher_base::return_value":
+            if not any(lib.tree_name(c) == "trompeloeil::call_matcher_base::return_value" for c in lib.tree_calls(x)):
                 ok = False
                 why = "the dispatch function does not return the result of the handler's return expression"
         ctx.ob("C08.h", A["dispatch"], ok, pattern=fn.pat, unit=tu.name, inst=fn.q, detail=why)
